@@ -222,15 +222,16 @@ class Ref:
         self.p = [[], []]
         self.a = [[], []]
         self.cap = [(0, 0), (0, 0)]      # (capacity, has storage) of the arrays as last shown by the implementation
-        self.t = []                      # List<Tagged>: (key, tag) pairs
+        self.t = {"t": [], "e": [], "x": []}   # List<Tagged> / List<TaggedLe> / List<TaggedOdd>: (key, tag) pairs
         self.u = []                      # PoolList<Tagged>
+        self.m = []                      # PoolList<Multi>: tuples of 0..7 constructor arguments
 
     def show(self, kind, v):
         if kind == "a":
             x = self.a[v]
             return f"a{v} {len(x)} ? ? {csv(x)}"
         x = (self.l if kind == "l" else self.p)[v]
-        return f"{kind}{v} {len(x)} {0 if x else 1} {csv(x)} ?"
+        return f"{kind}{v} {len(x)} {0 if x else 1} {csv(x)} ? ?"
 
     def all(self):
         return "r=- n=? d=? | " + " | ".join(self.show(k, v) for k in "lpa" for v in (0, 1))
@@ -244,8 +245,10 @@ class Ref:
             return self.all()
         if op == "dump" and len(t) == 1:
             return self.all()
-        if op[0] == "t":
+        if op[0] in "tex":
             return self.tagged(t, impl)
+        if op[0] == "m":
+            return self.multi(t)
         if op[0] == "u":
             return self.pool_tagged(t)
         if len(t) < 2 or not isnum(t[1]) or int(t[1]) > 1:
@@ -364,6 +367,10 @@ class Ref:
                     n = int(t[2])
                     if n < len(x): del x[n:]
                     else: x.extend([int(t[3])] * (n - len(x))); need = n
+                elif op == "aresized" and len(t) == 3:
+                    n = int(t[2])
+                    if n < len(x): del x[n:]
+                    else: x.extend([0] * (n - len(x))); need = n
                 elif op == "aappend" and len(t) == 3:
                     x.append(int(t[2])); ret = len(x) - 1; need = len(x)
                 elif op == "aappenda" and len(t) == 2:
@@ -426,34 +433,59 @@ class Ref:
         return " | ".join([head] + [self.show(k, u) for k, u in shows])
 
     def tagged(self, t, impl):
-        """List<Tagged> (operator< on the key only): after sort the keys ascend and the (key, tag) pairs are a permutation;
-        which of the equal keys ends up where is not specified - the reference adopts the implementation's arrangement"""
-        op = t[0]
-        fmt = lambda xs: f"t {len(xs)} " + ("-" if not xs else ",".join(f"{k}:{g}" for k, g in xs))
-        if op in ("tappend", "tprepend") and len(t) == 3 and isint(t[1]) and isint(t[2]):
+        """List<Tagged> (operator< on the key only), List<TaggedLe> (operator< is `<=` on the key: NON-strict) and
+        List<TaggedOdd> (an inconsistent operator<).  After sort the (key, tag) pairs are a permutation for all three; the
+        keys ascend for the first two.  Which of the equal keys ends up where (and the whole arrangement for the
+        inconsistent comparison) is not specified - the reference adopts the implementation's arrangement (the MODEL's
+        arrangement is compared exactly by the impl-vs-model comparison)."""
+        c = t[0][0]
+        op = t[0][1:]
+        cur = self.t[c]
+        fmt = lambda xs: f"{c} {len(xs)} " + ("-" if not xs else ",".join(f"{k}:{g}" for k, g in xs))
+        if op in ("append", "prepend") and len(t) == 3 and isint(t[1]) and isint(t[2]):
             e = (int(t[1]), int(t[2]))
-            self.t = self.t + [e] if op == "tappend" else [e] + self.t
-        elif op == "tclear" and len(t) == 1:
-            self.t = []
-        elif op == "tsort" and len(t) == 1:
+            cur = cur + [e] if op == "append" else [e] + cur
+        elif op == "clear" and len(t) == 1:
+            cur = []
+        elif op == "sort" and len(t) == 1:
             got = None
-            if impl is not None and impl.startswith("t "):
+            if impl is not None and impl.startswith(c + " "):
                 tk = impl.split(" ")
                 try:
                     got = [] if tk[2] == "-" else [tuple(int(x) for x in p.split(":")) for p in tk[2].split(",")]
                 except (ValueError, IndexError):
                     got = None
             if got is None:
-                self.t = sorted(self.t, key=lambda e: e[0])
+                cur = sorted(cur, key=lambda e: e[0])
             else:
-                if sorted(got) != sorted(self.t):
-                    return "CONTRACT sort is not a permutation: " + fmt(sorted(self.t, key=lambda e: e[0]))
-                if any(got[i][0] > got[i + 1][0] for i in range(len(got) - 1)):
-                    return "CONTRACT sort is not ascending: " + fmt(sorted(self.t, key=lambda e: e[0]))
-                self.t = got
+                if sorted(got) != sorted(cur):
+                    return "CONTRACT sort is not a permutation: " + fmt(sorted(cur, key=lambda e: e[0]))
+                if c != "x" and any(got[i][0] > got[i + 1][0] for i in range(len(got) - 1)):
+                    return "CONTRACT sort is not ascending: " + fmt(sorted(cur, key=lambda e: e[0]))
+                cur = got
         else:
             return "bad-op"
-        return fmt(self.t)
+        self.t[c] = cur
+        return fmt(cur)
+
+    def multi(self, t):
+        """PoolList<Multi>: append with 0..7 constructor arguments"""
+        op = t[0]
+        if op == "mappend" and len(t) == 2:
+            try:
+                vs = parse_csv(t[1])
+            except ValueError:
+                return "bad-op"
+            if len(vs) > 7: return "bad-op"
+            self.m.append(tuple(vs))
+        elif op == "mremove" and len(t) == 2 and isnum(t[1]):
+            if int(t[1]) >= len(self.m): return "bad-op"
+            del self.m[int(t[1])]
+        elif op == "mclear" and len(t) == 1:
+            self.m = []
+        else:
+            return "bad-op"
+        return f"m {len(self.m)} " + ("-" if not self.m else ",".join(":".join(str(x) for x in (len(e),) + e) for e in self.m))
 
     def pool_tagged(self, t):
         op = t[0]
@@ -542,7 +574,7 @@ L_OPS = ["lappend 0 0", "lappend 0 1", "lappend 0 2", "lprepend 0 1", "linsert 0
          "lappendself 0", "lprependself 0", "linsertself 0 1", "lassignself 0"]
 P_OPS = ["pappend 0 0", "pappend 0 1", "pappend 0 2", "pappend 1 1", "premove 0 0", "premove 0 1", "premovev 0 0",
          "premovev 0 2", "premoveFront 0", "premoveBack 0", "pclear 0", "pswap 0", "pfront 0", "pback 0"]
-A_OPS = ["aappend 0 0", "aappend 0 1", "aappend 0 2", "aappendn 0 1,2", "aappendn 0 2,1,0,1", "aappendn 0 -", "aappenda 0",
+A_OPS = ["aresized 0 3", "aappend 0 0", "aappend 0 1", "aappend 0 2", "aappendn 0 1,2", "aappendn 0 2,1,0,1", "aappendn 0 -", "aappenda 0",
          "aresize 0 0 1", "aresize 0 2 1", "aresize 0 5 1", "areserve 0 0", "areserve 0 1", "areserve 0 4", "areserve 0 5",
          "aremovei 0 0", "aremovei 0 1", "aremovei 0 7", "aremove 0 0", "aremoveBack 0", "aremoveFront 0", "aclear 0", "aswap 0",
          "acopy 1", "acopy 0", "aassign 0", "aassign 1", "anewcap 0 2", "anewcap 1 0", "anew 0", "afind 0 1", "aget 0 0",
@@ -591,6 +623,36 @@ def tagged_histories(rng, maxlen, nrandom):
         if shape == 1: ks.sort()
         if shape == 2: ks.sort(reverse=True)
         hs.append(["tclear"] + [f"tappend {k} {i}" for i, k in enumerate(ks)] + ["tsort", "tsort", f"tappend {rng.randrange(d)} {n}", "tsort"])
+    # the same with a non-strict (`e`: <=) and an inconsistent (`x`) operator<: termination, no access outside the list,
+    # permutation, and the model's exact arrangement
+    for c in "ex":
+        for n in range(0, max(0, maxlen - 1) + 1):
+            for ks in itertools.product((0, 1, 2), repeat=n):
+                hs.append([f"{c}append {k} {i}" for i, k in enumerate(ks)] + [f"{c}sort", f"{c}prepend 1 99", f"{c}sort"])
+        for _ in range(nrandom):
+            n = rng.choice([5, 9, 17, 33, 64, 100])
+            d = rng.choice([1, 2, 3, 5, 1000])
+            shape = rng.randrange(4)
+            ks = [rng.randrange(d) for _ in range(n)]
+            if shape == 1: ks.sort()
+            if shape == 2: ks.sort(reverse=True)
+            hs.append([f"{c}clear"] + [f"{c}append {k} {i}" for i, k in enumerate(ks)] + [f"{c}sort", f"{c}sort", f"{c}append {rng.randrange(d)} {n}", f"{c}sort"])
+    # PoolList<Multi>: append() with 0..7 constructor arguments in every order of arities (pairs) and random mixes
+    for a in range(8):
+        for b in range(8):
+            hs.append([f"mappend {csv(list(range(10, 10 + a)))}", f"mappend {csv(list(range(20, 20 + b)))}", "mremove 0",
+                       f"mappend {csv(list(range(30, 30 + a)))}"])
+    for _ in range(max(20, nrandom // 5)):
+        n, h = 0, []
+        for _ in range(rng.choice([6, 12, 30])):
+            k = rng.random()
+            if k < 0.6 or n == 0:
+                h.append(f"mappend {csv([rng.randint(-5, 99) for _ in range(rng.randrange(8))])}"); n += 1
+            elif k < 0.95:
+                h.append(f"mremove {rng.randrange(n)}"); n -= 1
+            else:
+                h.append("mclear"); n = 0
+        hs.append(h)
     # PoolList<Tagged>: in-place construction through append(A, B), removal at every position, reuse after clear
     for _ in range(nrandom):
         n, h, cnt = 0, [], 0
@@ -617,12 +679,23 @@ def alias_histories():
         for m in range(1, 17):
             fill = [f"anewcap 0 {c}", f"aappendn 0 {csv([100 + j for j in range(m)])}"]
             tails = [["aappendself 0"], ["aappendself 0", "aappendself 0"], ["aassignself 0", "aappendself 0"]]
-            for i in sorted({0, m // 2, m - 1}):
+            for i in range(m):                       # EVERY index at every size/capacity combination
                 tails.append([f"aappendref 0 {i}"])
+                tails.append([f"aappendref 0 {i}", f"aappendref 0 {i}"])
+            for i in sorted({0, m // 2, m - 1}):
                 for n in sorted({m, m + 1, (max(c, m) | 3), (max(c, m) | 3) + 1, m + 9}):
                     tails.append([f"aresizeref 0 {n} {i}"])
             for t in tails:
                 hs.append(fill + t + ["aappend 0 7", "dump"])
+    for m in range(1, 24):
+        # the array filled exactly to its capacity in different ways (single appends, resize, reserve + append(values, n)),
+        # then a.append(a[i]) for every i: the reallocating append with an aliasing argument
+        for fill in ([f"aappend 0 {100 + j}" for j in range(m)],
+                     [f"aresize 0 {m} 5", f"aappendn 0 {csv([100 + j for j in range((m | 3) - m)])}"],
+                     [f"areserve 0 {m}", f"aappendn 0 {csv([100 + j for j in range(m | 3)])}"]):
+            n = m if fill[0].startswith("aappend ") else (m | 3)
+            for i in range(n):
+                hs.append(fill + [f"aappendref 0 {i}", "dump"])
     for m in range(0, 10):
         fill = [f"lappend 0 {100 + j}" for j in range(m)]
         for t in [["lappendself 0"], ["lprependself 0"], ["lassignself 0"]] + [[f"linsertself 0 {p}"] for p in range(m + 1)]:
@@ -713,7 +786,8 @@ def gen_random(rng, length, kinds, pool_front):
             if k < 0.25 - (0.1 if big else 0): op = f"aappend {v} {val()}"
             elif k < 0.32 - (0.1 if big else 0): op = f"aappendn {v} {csv([val() for _ in range(rng.choice([0, 1, 2, 3, 5, 9]))])}"
             elif k < 0.36 - (0.1 if big else 0): op = f"aappenda {v}"
-            elif k < 0.44: op = f"aresize {v} {rng.choice([0, 1, n, n + 1, n + 3, max(0, n - 1), max(0, n - 2), rng.randrange(0, 45)])} {val()}"
+            elif k < 0.43: op = f"aresize {v} {rng.choice([0, 1, n, n + 1, n + 3, max(0, n - 1), max(0, n - 2), rng.randrange(0, 45)])} {val()}"
+            elif k < 0.44: op = f"aresized {v} {rng.choice([0, n, n + 1, n + 3, max(0, n - 1), rng.randrange(0, 45)])}"
             elif k < 0.50: op = f"areserve {v} {rng.choice([0, n, n + 1, r.cap[v][0], r.cap[v][0] + 1, rng.randrange(0, 45)])}"
             elif k < 0.58: op = f"aremovei {v} {pos(n, False)}"
             elif k < 0.66: op = f"aremove {v} {pos(n, False)}"
@@ -742,7 +816,7 @@ def nontrivial(h, out):
     if len(h) < 3 or not out:
         return None
     last = out[-1]
-    if last[:2] in ("t ", "u ") and not last[1:].startswith(" 0 "):
+    if last[:2] in ("t ", "u ", "e ", "x ", "m ") and not last[1:].startswith(" 0 "):
         return (frozenset(l.split()[0] for l in h), last)
     if last == "bad-op" or " | " not in last:
         return None
@@ -824,6 +898,15 @@ def _work(span):
                 continue
             if op == "tsort":
                 hit("sort of List<Tagged> (arrangement of equal keys compared with the model)")
+                continue
+            if op == "esort":
+                hit("sort with a NON-strict operator< (<= on the key): arrangement compared with the model")
+                continue
+            if op == "xsort":
+                hit("sort with an inconsistent operator< (cyclic): arrangement compared with the model")
+                continue
+            if op == "mappend":
+                hit("PoolList::append with %d constructor argument(s)" % (0 if line.split()[1] == "-" else line.count(",") + 1))
                 continue
             parts = out.split(" | ")
             hd = parts[0].split(" ")
